@@ -38,8 +38,9 @@ KINDSETS = {
         ["trylock 0", "ifeq 1 v:1 2", "crd 0", "unlock 0"], ["lock 1", "unlock 1"],
         ["lock 0", "lock 1", "unlock 1", "unlock 0"], ["lock 1", "lock 0", "unlock 0", "unlock 1"],
     ]),
-    "rwlock": ({"l": 1, "c": 1}, [
+    "rwlock": ({"l": 1, "c": 1, "x": 1}, [
         ["rd 0", "crd 0", "unrd 0"], ["wr 0", "cwr 0 {v}", "unwr 0"],
+        ["rd 0", "fadd 0 1 rlx", "crd 0", "unrd 0"],
         ["tryrd 0", "ifeq 1 v:1 2", "crd 0", "unrd 0"], ["trywr 0", "ifeq 1 v:1 2", "cwr 0 {v}", "unwr 0"],
     ]),
     "condvar": ({"m": 1, "c": 1, "v": 1}, [
